@@ -116,4 +116,81 @@ structure CodecOk (env : I18n.Po.Env) (enc : Bytes) (E : Codec) : Prop where
   decode : ∀ pairs : List (Char × Bytes), (∀ p ∈ pairs, E.encode p.1 = some p.2) →
     env.decode enc (pairs.map (·.2)).flatten = .text (pairs.map (·.1))
 
+/-! ## flags -/
+
+/-- an item of a flag list as it can be read back: no comma, no white space at either end (it may be empty) -/
+def FlagItem (sp : Char → Bool) (f : Text) : Prop :=
+  ',' ∉ f ∧ (∀ c r, f = c :: r → sp c = false) ∧ (∀ c, f.getLast? = some c → sp c = false)
+
+/-- one item of a `#,` line with the white space written around it -/
+structure FlagPiece where
+  lpad : Text
+  item : Text
+  rpad : Text
+
+def FlagPiece.Valid (sp : Char → Bool) (x : FlagPiece) : Prop :=
+  FlagItem sp x.item ∧ (∀ c ∈ x.lpad, sp c = true) ∧ (∀ c ∈ x.rpad, sp c = true)
+
+def FlagPiece.render (x : FlagPiece) : Text := x.lpad ++ x.item ++ x.rpad
+
+/-- `','.join(parts)` -/
+def joinComma : List Text → Text
+  | [] => []
+  | [a] => a
+  | a :: b :: r => a ++ ',' :: joinComma (b :: r)
+
+/-- what follows `#,` and one white-space character on a flags line -/
+def flagBody (ps : List FlagPiece) : Text := joinComma (ps.map FlagPiece.render)
+
+/-! ## physical lines -/
+
+/-- the white space a spelling may put around the tokens of a line: blanks and tabs -/
+def Blank (s : Text) : Prop := ∀ c ∈ s, c = ' ' ∨ c = '\t'
+
+/-- one `"…"` segment of a string on its own physical line, with the padding before the line and after the quote -/
+structure Seg where
+  lpad : Text
+  choices : List Choice
+  rpad : Text
+
+/-- `rpad` is whatever white space ends the line, the line terminator included -/
+def Seg.Valid (E : Codec) (g : Seg) : Prop :=
+  (∀ x ∈ g.choices, x.Valid E) ∧ okSeq g.choices = true ∧ Blank g.lpad ∧ ∀ c ∈ g.rpad, I18n.Po.pyIsSpace c = true
+
+def quoted (cs : List Choice) : Text := '"' :: render cs ++ ['"']
+
+/-- what precedes the keyword or the quote: nothing, the obsolete marker `#~`, the previous-msgid marker `#|` -/
+inductive Prefix where
+  | plain
+  | obsolete (sep : Text)
+  | previous (sep : Text)
+
+def Prefix.render : Prefix → Text
+  | .plain => []
+  | .obsolete sep => '#' :: '~' :: sep
+  | .previous sep => '#' :: '|' :: sep
+
+def Prefix.isObsolete : Prefix → Bool
+  | .obsolete _ => true
+  | _ => false
+
+def Prefix.Valid : Prefix → Prop
+  | .plain => True
+  | .obsolete sep => sep ≠ [] ∧ Blank sep
+  | .previous sep => sep ≠ [] ∧ Blank sep
+
+/-- `msgid "…"` and the like (no line terminator) -/
+def kwLine (pre : Prefix) (kw sep : Text) (g : Seg) : Text :=
+  g.lpad ++ (pre.render ++ (kw ++ (sep ++ quoted g.choices))) ++ g.rpad
+
+/-- the decimal digit of a plural index (N ≤ 9: polib reads one character) -/
+def digitChar (i : Fin 10) : Char := Char.ofNat (48 + i.val)
+
+/-- `msgstr[N]` -/
+def mxKw (i : Fin 10) : Text := ['m', 's', 'g', 's', 't', 'r', '[', digitChar i, ']']
+
+/-- a continuation line `"…"` -/
+def contLine (pre : Prefix) (g : Seg) : Text :=
+  g.lpad ++ (pre.render ++ quoted g.choices) ++ g.rpad
+
 end I18n.Spec.PoSpelling
